@@ -9,8 +9,14 @@ import (
 // C01 / C03: every single fault (error / panic(error) / panic(value) / cancel) at every call position of the
 // fault-free run, for generated pipelines and terminals.
 func init() {
-	Register("C01", Family{Gen: func(c *Ctx) { genFaults(c, []string{"err", "perr", "pval", "cancel"}) }, Exec: execPipe})
-	Register("C03", Family{Gen: func(c *Ctx) { genFaults(c, []string{"err", "perr", "pval", "eoferr", "peof", "errctx"}) }, Exec: execPipe})
+	Register("C01", Family{Gen: func(c *Ctx) {
+		genFaults(c, []string{"err", "perr", "pval", "cancel"})
+		genPipeDyn(c, []string{"err", "perr", "pval", "cancel"}) // FlatMap family (pipedyn.go)
+	}, Exec: execPipeOrDyn})
+	Register("C03", Family{Gen: func(c *Ctx) {
+		genFaults(c, []string{"err", "perr", "pval", "eoferr", "peof", "errctx"})
+		genPipeDyn(c, []string{"err", "perr", "pval", "eoferr", "peof", "errctx"}) // FlatMap family (pipedyn.go)
+	}, Exec: execPipeOrDyn})
 }
 
 // callsOf runs the case fault-free and returns the number of call positions of its (single) run.
